@@ -12,13 +12,13 @@ pub static DEF: CheckDef = CheckDef {
     id: "C12",
     run,
     replay,
-    rule: "for each supported cartridge type (0x00, 0x01-0x03, 0x11-0x13) x ROM size code (0-8, 0x52-0x54) x RAM size code (0-5): (a) the complete product of controller register values (MBC1: 32 x 4 x 2, MBC3: 128 x 16, each value written at several addresses of its register's range), (b) proptest histories of up to 40 (address < 0x8000, value) writes biased to the register-range edges and to the values 0, 1, 0x1F, 0x20, 0x21, 0x3F, 0x40, 0x60, 0x7F, 0x80, 0xFF. After every write the bank visible at 0x0000, at 0x4000-0x7FFF (ROM banks carry their index; through data reads and through the instruction-fetch view) and at 0xA000-0xBFFF (RAM banks carry theirs) is compared with the reference controller model. Non-trivial = history that selects value 0, a multiple of 0x20, mode 1 or a bank beyond the ROM size; distinct by hash of (configuration, history).",
+    rule: "for each supported cartridge type (0x00, 0x01-0x03, 0x11-0x13) x ROM size code (0-8, 0x52-0x54) x RAM size code (0-5): (a) the complete product of controller register values (MBC1: 32 x 4 x 2, MBC3: 128 x 16, each value written at several addresses of its register's range), (b) proptest histories of up to 40 (address < 0x8000, value) writes biased to the register-range edges and to the values 0, 1, 0x1F, 0x20, 0x21, 0x3F, 0x40, 0x60, 0x7F, 0x80, 0xFF. After every write the bank visible at 0x0000, at 0x4000-0x7FFF (ROM banks carry their index; through data reads and through the instruction-fetch view) and at 0xA000-0xBFFF (RAM banks carry theirs) is compared with the reference controller model. (c) executed view: on six cartridges, proptest histories of up to 29 register writes; after every write the CPU of the interpreter build and of the jit build executes LD BC,nn at 0x3FFE and LD B,n at 0x3FFF, whose last operand byte is the first byte of the bank mapped at 0x4000 (its stamp) - the same two addresses again and again, the translation cache staying warm across the bank switches - and B must be the stamp of the bank the protocol makes visible. Non-trivial = history that selects value 0, a multiple of 0x20, mode 1 or a bank beyond the ROM size; distinct by hash of (configuration, history).",
     assumptions: &[
         "models::mbc (register protocol from the controller documentation); set-valued where documentation differs: MBC1 mode 1 may or may not apply the upper bits at 0x4000-0x7FFF",
         "RAM enable is not asserted; for 2 KiB RAM the window must show the same 2 KiB four times; RAM bank contents are asserted for RAM sizes of at least one 8 KiB bank; MBC3 RTC register selections (0x4000-0x5FFF value >= 4) suspend the RAM-bank assertion",
         "for 72/80/96-bank ROMs only selections below the bank count are asserted",
     ],
-    required_classes: &["value-zero", "multiple-of-0x20", "mode-1", "beyond-size", "mbc3", "rom-only"],
+    required_classes: &["value-zero", "multiple-of-0x20", "mode-1", "beyond-size", "mbc3", "rom-only", "executed-view", "executed-view-warm-cache-across-bank-switches"],
     exhaustive: false,
 };
 
@@ -275,9 +275,118 @@ fn run(rec: &mut Rec) {
             }
         }
     }
+    exec_view_layer(rec);
+}
+
+// ---------------------------------------------------------------------------
+// executed view: what the CPU actually fetches from the switchable bank, in both builds
+
+/// Bank 0 of the stamped ROM ends in `01 06`: from PC = 0x3FFE that is LD BC,nn whose high
+/// operand byte is the first byte of the bank mapped at 0x4000 (its stamp), from PC = 0x3FFF
+/// it is LD B,n with the same byte as operand. After any history of register writes B must be
+/// the stamp of the bank the protocol makes visible - in the interpreter build and in the jit
+/// build, where the same address is executed again and again with the translation cache warm.
+fn exec_view(cfg: (u8, u8, u8), hist: &[(u16, u8)], rec: Option<&mut Rec>) -> Result<(), (String, String)> {
+    use crate::mach::{j, Regs};
+    let mut rom = RomImage::new(cfg.0, cfg.1, cfg.2, 0x00);
+    rom.stamp_banks();
+    rom.bytes[0x3ffe] = 0x01;
+    rom.bytes[0x3fff] = 0x06;
+    rom.fix_checksum();
+    let banks = rom_banks_for_code(cfg.1).unwrap();
+    let ram_bytes = ram_bytes_for_code(cfg.2).unwrap();
+    let mut model = Mbc::new(kind_for_type(cfg.0).unwrap(), banks, ram_bytes);
+    let mut mi = i::M::new(&rom);
+    let mut mj = j::M::new(&rom);
+    let mut switches = 0u32;
+    let mut last: Option<usize> = None;
+    for (k, (a, v)) in hist.iter().enumerate() {
+        mi.write(*a, *v);
+        mj.write(*a, *v);
+        model.write(*a, *v);
+        let raw = model.rom_bank_high_raw();
+        if !(banks.is_power_of_two() || raw.iter().all(|b| *b < banks)) {
+            continue;
+        }
+        let want: Vec<u8> = raw.iter().map(|b| (b % banks) as u8).collect();
+        if let Some(w) = want.first() {
+            if last.is_some() && last != Some(*w as usize) {
+                switches += 1;
+            }
+            last = Some(*w as usize);
+        }
+        for (name, m) in [("interpreter build", &mut mi as &mut dyn Emu), ("jit build", &mut mj as &mut dyn Emu)] {
+            for pc in [0x3ffeu16, 0x3fff] {
+                m.set_regs(&Regs { af: 0x0100, bc: 0xeeee, de: 0, hl: 0, sp: 0xdff0, pc: pc as u32, cycles: 0 });
+                m.set_ime(crate::mach::IME_DISABLED);
+                m.set_run_state(crate::mach::RUN);
+                let is_jit = m.is_jit();
+                let r = guarded(|| if is_jit { m.step_block() } else { m.step_update() });
+                if let Err(msg) = r {
+                    return Err(("exec-view-panic".into(), format!("executing at {:#06x} after write {} of the history panicked in the {}: {}", pc, k, name, msg)));
+                }
+                let b = (m.regs().bc >> 8) as u8;
+                if !want.contains(&b) {
+                    return Err((
+                        format!("exec-view-{}", if is_jit { "jit" } else { "interpreter" }),
+                        format!("after write {} ({:#06x} <- {:#04x}) the {} executing {} at {:#06x} fetched its operand byte at 0x4000 from bank {}; the protocol makes bank {:?} visible (registers: low={:#x} upper={} mode={}, {} banks)", k, a, v, name, if pc == 0x3ffe { "LD BC,nn" } else { "LD B,n" }, pc, b, want, model.rom_low, model.upper, model.mode as u8, banks),
+                    ));
+                }
+            }
+        }
+    }
+    if let Some(rec) = rec {
+        rec.eval(hist.len() as u64 * 4);
+        rec.class("executed-view", 1);
+        if switches >= 2 {
+            rec.class("executed-view-warm-cache-across-bank-switches", 1);
+            rec.nontrivial(fnv(format!("x{:?}{:?}", cfg, hist).as_bytes()));
+        }
+    }
+    Ok(())
+}
+
+const EXEC_CFGS: [(u8, u8, u8); 6] = [(0x01, 0x05, 0), (0x13, 0x06, 3), (0x01, 0x01, 0), (0x03, 0x04, 3), (0x11, 0x02, 0), (0x01, 0x52, 0)];
+
+fn exec_view_json(cfg: (u8, u8, u8), hist: &[(u16, u8)]) -> Value {
+    json!({"kind": "mbc-exec-view", "type": cfg.0, "rom_code": cfg.1, "ram_code": cfg.2, "writes": hist})
+}
+
+fn exec_view_layer(rec: &mut Rec) {
+    let cases = rec.ctx.tier.pick(12u32, 400);
+    let val = prop_oneof![Just(0u8), Just(1), Just(2), Just(0x1f), Just(0x20), Just(0x21), Just(0x3f), Just(0x40), Just(0x7f), Just(0x80), Just(0xff), Just(3), any::<u8>()];
+    let addr = prop_oneof![3 => 0x2000u16..0x4000, 1 => 0x4000u16..0x6000, 1 => 0x6000u16..0x8000, 1 => 0u16..0x2000];
+    let strat = (0usize..EXEC_CFGS.len(), prop::collection::vec((addr, val), 1..30));
+    fn to_json(v: &(usize, Vec<(u16, u8)>)) -> Value {
+        exec_view_json(EXEC_CFGS[v.0], &v.1)
+    }
+    run_generated(rec, "execview", cases, strat, to_json, |(ci, hist), rec, counting| {
+        let cfg = EXEC_CFGS[*ci];
+        if counting {
+            rec.current(&exec_view_json(cfg, hist).to_string());
+        }
+        match exec_view(cfg, hist, if counting { Some(rec) } else { None }) {
+            Ok(()) => Ok(()),
+            Err((sig, d)) => Err(Fail::new(sig, format!("{} [cartridge type {:#04x}, ROM code {:#04x}, RAM code {}]", d, cfg.0, cfg.1, cfg.2))),
+        }
+    });
 }
 
 fn replay(case: &Value, rec: &mut Rec) {
+    if case.get("kind").and_then(|k| k.as_str()) == Some("mbc-exec-view") {
+        let g = |k: &str| case.get(k).and_then(|v| v.as_u64()).unwrap_or(0) as u8;
+        let cfg = (g("type"), g("rom_code"), g("ram_code"));
+        let hist: Vec<(u16, u8)> = case.get("writes").and_then(|w| serde_json::from_value(w.clone()).ok()).unwrap_or_default();
+        if kind_for_type(cfg.0).is_none() || rom_banks_for_code(cfg.1).is_none() || ram_bytes_for_code(cfg.2).is_none() {
+            rec.inconclusive("replay case names an unsupported configuration");
+            return;
+        }
+        rec.current(&case.to_string());
+        if let Err((sig, d)) = exec_view(cfg, &hist, Some(rec)) {
+            rec.violation(&sig, case.clone(), d);
+        }
+        return;
+    }
     let t = case.get("type").and_then(|v| v.as_u64()).unwrap_or(1) as u8;
     let rc = case.get("rom_code").and_then(|v| v.as_u64()).unwrap_or(2) as u8;
     let rac = case.get("ram_code").and_then(|v| v.as_u64()).unwrap_or(3) as u8;
